@@ -369,6 +369,9 @@ def domainless_case(N):
     return h, W
 
 
+LONG_FAMILIES = ("two-variable-query-twice", "two-queries-sharing-a-variable", "two-queries-sharing-a-lazily-produced-domain", "two-queries-sharing-a-subexpression", "exists-query-twice")
+
+
 def cases(tier, seed):
     L = 4 if tier == "quick" else 6
     N = 2
@@ -376,7 +379,8 @@ def cases(tier, seed):
     for fam in FAMILIES:
         for mode in ("sequential", "nested", "schedule"):
             nm = "%s|%s" % (fam, mode)
-            cs.append(Case(nm + ("|L=%d" % L if mode == "schedule" else ""), harness(fam, L, N, mode), key=nm, reset=eql_reset, validate=1,
+            Lf = 5 if tier != "quick" and fam in LONG_FAMILIES else L  # (measured: these run into the budget with 6 steps)
+            cs.append(Case(nm + ("|L=%d" % Lf if mode == "schedule" else ""), harness(fam, Lf, N, mode), key=nm, reset=eql_reset, validate=1,
                            timeout=400 if tier == "quick" else 2400, max_paths=150000 if tier == "quick" else 2000000, cex_grace=10**9))
     h_, W_ = domainless_case(2 if tier == "quick" else 3)
     cs.append(Case("a domain-less variable while instances are created during its evaluation", h_, key="domainless-variable|instances-created-meanwhile", reset=lambda: (W_.world_reset(), eql_reset()), validate=1, timeout=400))
@@ -396,6 +400,6 @@ def describe(tier):
         "steps over start(q_i) / next(it_j) / drain(it_j) (consume the rest) / abandon(it_j) with <= 3 iterators); attribute values symbolic; the reference for every evaluation is the result of "
         "a fresh, structurally identical query over the same objects run alone; non-trivial = >= 2 feasible paths and some output" % L,
         bounds=dict(schedule_length=L, iterators="<= 3", objects_per_domain=2, values="unbounded integers"),
-        outside=["threads (the property speaks of interleavings of next() steps)", "more than 3 live iterators", "longer schedules"],
+        outside=["threads (the property speaks of interleavings of next() steps)", "more than 3 live iterators", "longer schedules" + ("" if tier == "quick" else " (5 steps for the families " + ", ".join(LONG_FAMILIES) + ")")],
         assumptions=["the engine run alone on a fresh query is the reference (its absolute correctness is C01/C02/C08)", "inferred instances are compared by type and source object"],
     )
